@@ -267,10 +267,34 @@ Definition corr (prop : N) (npool : N) (st : state) (o : obs) (h : N) : bool :=
   | _ => true
   end.
 
+(* S_C09, the true history step by step: after an accepted UpdateMembers every removed address is no
+   member, every added address that is not also removed has the (last) weight given to it, and everybody
+   else is as before *)
+Fixpoint last_add (add : list (option N * N)) (a : N) : option N :=
+  match add with
+  | [] => None
+  | (Some x, w) :: r => match last_add r a with Some v => Some v | None => if x =? a then Some w else None end
+  | (None, _) :: r => last_add r a
+  end.
+Definition s_c09_update (npool : N) (pre post : obs) (o : op) (ok : bool) : N :=
+  match o with
+  | UpdateMembers add remove =>
+      if negb ok then 0 else
+      if forallb (fun a =>
+           let removed := existsb (fun x => match x with Some y => y =? a | None => false end) remove in
+           optN_eqb (lookup (ob_now post) a)
+                    (if removed then None
+                     else match last_add add a with Some w => Some w | None => lookup (ob_now pre) a end))
+         (upto npool)
+      then 0 else 8
+  | _ => 0
+  end.
+
 Definition contract (prop : N) (st : state) (npool : N) (pure : bool) (pre post : obs) (blk : block) (sender : N)
            (o : op) (hok ok : bool) (ms : list msg) : N :=
   match prop with
-  | 9 => s_c09 (is_stake st) npool pre post (height blk)
+  | 9 => let c := s_c09 (is_stake st) npool pre post (height blk) in
+         if negb (c =? 0) then c else if is_stake st then 0 else s_c09_update npool pre post o ok
   | 10 => if is_stake st then s_c10 (cfg st) npool pure pre post blk sender o hok ok ms else 0
   | 14 => s_c14 (is_stake st) npool pre post sender o hok ok ms
   | _ => 0
